@@ -1,6 +1,6 @@
 SPECIFICATION Spec
 CONSTANTS
-    MaxPts = 3
+    MaxPts = 4
     K = 1
     BufSize = 2
     Topos <- MCTopos
@@ -22,3 +22,6 @@ INVARIANTS
     NoCollectOnClosed
     StoppedMeansQuiet
 CHECK_DEADLOCK TRUE
+PROPERTIES
+    StopCompletes
+    AllGoroutinesExit
